@@ -2,6 +2,7 @@ import PytaskProofs.Lemmas.EngineInv
 import PytaskProofs.Lemmas.StateExit
 import PytaskProofs.Lemmas.EngineExample
 import PytaskProofs.Lemmas.StateStructural
+import PytaskProofs.Lemmas.StateUPath
 /-!
 # C03 — nothing is re-executed unless something it depends on changed
 
@@ -138,6 +139,12 @@ theorem C03_history_build (F : BodyFn) (P : Project) (cfg : Cfg) (w : World) (g 
   intro v hv
   obtain ⟨h, h1, h2⟩ := hrows v hv
   exact ⟨h, by rw [hstable v hv, h1], by rw [buildLoop_db_frame t pre hpre htpre v]; exact h2⟩
+
+/-- **C03_upath_touch** (node kind outside M6: a `UPath` with a protocol). Its state does not look at the modification time:
+a touch-only edit — same ETag, same content, any new time stamp — leaves the state, hence `RowsMatch`, as it was. (The constant
+used when the file system has no ETag is `Generated.upathNoEtagState`, read from `nodes._get_state` by `harness/extract_state.py`;
+replacing it by something time-dependent breaks this proof.) -/
+theorem C03_upath_touch (f : UFile) (mtime' : Nat) : upathState { f with mtime := mtime' } = upathState f := rfl
 
 /-! ## non-vacuity (project `exP`: input 10 → task 0 → 20 → task 1 → 21, 22; see `Lemmas/EngineExample.lean`) -/
 
